@@ -163,11 +163,13 @@ class NoFold(VC):
     def __init__(self, cls_name, kind):
         self.cls_name, self.opkind = cls_name, kind
         self.op = (BIN if kind == "bin" else UN)[cls_name]
-        self.target = "jinja2.nodes:BinExpr.as_const" if kind == "bin" else "jinja2.nodes:UnaryExpr.as_const"
+        # the as_const the node class actually resolves (an override in the subclass is what runs)
+        self.target = f"jinja2.nodes:{cls_name}.as_const"
         super().__init__("C20", f"C20.nofold.{cls_name}")
 
     def configure(self, I):
         I.inline.add("jinja2.nodes:get_eval_context")
+        A.opaque_arithmetic(I)
         I.specs["Expr.as_const"] = A.abstract_fn("child.as_const", returns="obj", raises=[N.Impossible, ("any", Exception)])
         for fn in list(N._binop_to_func.values()) + list(N._uaop_to_func.values()):
             I.specs[("fn", id(fn))] = A.abstract_fn("operator." + fn.__name__, returns="obj", raises=[("any", Exception)])
